@@ -535,6 +535,8 @@ class Table(object):
         col_id = value._replace(value=col_id)
         value = value.value
       else:
+        if not self.has_column(col_id):
+          self._lookup_column_error(col_id)
         col = self.get_column(col_id)
         # Convert `value` to the correct type of rich value for that column
         value = col._convert_raw_value(col.convert(value))
@@ -566,18 +568,30 @@ class Table(object):
     # LookupMapColumn is a Node, so identified by (table_id, col_id) pair, so we make up a col_id
     # to identify this lookup object uniquely in this Table.
     lookup_col_id = "#lookup#" + ":".join(map(str, col_ids_tuple))
+    # Check that the table actually has all the columns we looking up. (An existing lookup map
+    # may have outlived one of its columns.)
+    for c in col_ids_tuple:
+      c = lookup.extract_column_id(c)
+      if not self.has_column(c):
+        self._lookup_column_error(c)
     lmap = self._special_cols.get(lookup_col_id)
     if not lmap:
-      # Check that the table actually has all the columns we looking up.
-      for c in col_ids_tuple:
-        c = lookup.extract_column_id(c)
-        if not self.has_column(c):
-          raise KeyError("Table %s has no column %s" % (self.table_id, c))
       lmap = lookup.LookupMapColumn(self, lookup_col_id, col_ids_tuple)
       self._add_special_col(lmap)
     return lmap
 
+  def _lookup_column_error(self, col_id):
+    # Like _attribute_error(): depend on the set of this table's column names, so that the formula
+    # gets re-evaluated once a column of this name exists.
+    self._engine._use_node(self._new_columns_node, self._identity_relation)
+    raise KeyError("Table %s has no column %s" % (self.table_id, col_id))
+
   def _get_sorted_lookup_map(self, lookup_map, sort_spec):
+    # Check the sort columns too, whether or not a helper for this sort_spec exists already.
+    for c in sort_spec:
+      c = c[1:] if c.startswith('-') else c
+      if not self.has_column(c):
+        self._lookup_column_error(c)
     helper_col_id = lookup_map.col_id + "#" + ":".join(sort_spec)
     # Find or create a helper col for the given sort_spec.
     helper_col = self._special_cols.get(helper_col_id)
